@@ -39,16 +39,21 @@ STANDING_ASSUMPTIONS = [
 
 
 def _unit_task(args):
-    pid, idx = args
+    pid, idx = args[0], args[1]
+    work = args[2] if len(args) > 2 else None
+    budget = args[3] if len(args) > 3 else None
     try:
         mod = importlib.import_module(f'props.{pid.lower()}')
         from pyvc import engine
         unit = mod.units()[idx]
-        return ('unit', engine.run_unit(unit))
+        r = engine.run_unit(unit, work=work, budget=budget)
+        r['unit_index'] = idx
+        return ('unit', r)
     except Exception:
         return ('unit', {'unit': f'{pid}#{idx}', 'status': 'error', 'error': traceback.format_exc()[-2000:],
                          'obligations': [], 'paths': 0, 'secs': 0, 'assumed': [], 'notes': [], 'returns': 0,
-                         'raises': 0, 'target': '?', 'source_hash': None, 'file': None, 'line': None})
+                         'raises': 0, 'target': '?', 'source_hash': None, 'file': None, 'line': None,
+                         'pending': [], 'unit_index': idx})
 
 
 def _bounded_task(args):
@@ -85,11 +90,63 @@ def sanitize(s):
     return re.sub(r'[^A-Za-z0-9_.-]+', '_', s)[:80]
 
 
+def generic_replay(pid, unit_name, model):
+    """call the real function natively on the counter-model and evaluate the contract clauses natively"""
+    import contextlib
+    from pyvc import engine
+    mod = importlib.import_module(f'props.{pid.lower()}')
+    unit = [u for u in mod.units() if u.name == unit_name][0]
+    fn, _, _, _ = engine.resolve_target(unit.target)
+    if isinstance(fn, (staticmethod, classmethod)):
+        fn = fn.__func__
+    args = {k: model.get(k) for k in unit.params}
+    if any(isinstance(v, dict) and '__class__' in v for v in args.values()):
+        return {'confirmed': False, 'detail': 'generic replay cannot rebuild object-shaped parameters'}
+    env = dict(model)
+    cm = unit.native_setup(model) if getattr(unit, 'native_setup', None) else contextlib.nullcontext()
+    out = {'confirmed': False, 'input': {k: repr(v) for k, v in args.items()}}
+    with cm:
+        try:
+            result = fn(**args)
+        except Exception as e:
+            allowed = None
+            for ecls, cond in unit.raises.items():
+                if isinstance(e, ecls):
+                    allowed = cond
+            ok = False
+            if allowed is True:
+                ok = True
+            elif allowed is not None:
+                names = allowed.__code__.co_varnames[:allowed.__code__.co_argcount]
+                ok = bool(allowed(*[env.get(n) for n in names]))
+            out.update(confirmed=not ok, detail=f"raised {type(e).__name__}: {e}" + ('' if not ok else ' (allowed by the contract)'))
+            return out
+        env['result'] = result
+        out['observed'] = repr(result)[:300]
+        for label, clause in unit.ensures:
+            names = clause.__code__.co_varnames[:clause.__code__.co_argcount]
+            try:
+                holds = bool(clause(*[env.get(n) for n in names]))
+            except Exception as e:
+                holds = False
+                label = f"{label} (clause raised {type(e).__name__}: {e})"
+            if not holds:
+                out.update(confirmed=True, detail=f"postcondition `{label}` is false on the real code")
+                return out
+    out['detail'] = 'real function satisfies every contract clause on this input'
+    return out
+
+
 def do_replay(spec, model):
-    """spec = ('module:function', kwargs)."""
+    """spec = ('module:function', kwargs)  |  ('generic', {'pid':..., 'unit':...})."""
     if not spec:
         return {'confirmed': False, 'detail': 'no replay harness for this obligation'}
     modfn, kw = spec
+    if modfn == 'generic':
+        try:
+            return generic_replay(kw['pid'], kw['unit'], model)
+        except Exception:
+            return {'confirmed': False, 'detail': 'generic replay error: ' + traceback.format_exc()[-1500:]}
     modname, fn = modfn.split(':')
     try:
         f = getattr(importlib.import_module(modname), fn)
@@ -107,11 +164,44 @@ def run_check(pid, tier, seed, jobs, select=None):
     bounded = mod.bounded(tier, seed) if hasattr(mod, 'bounded') else []
     if not select:
         tasks += [('bounded', pid, i, tier, seed) for i in range(len(bounded))]
-    # longest first
+    # stage 1: every unit explores a few paths; what is left of its path tree is split into sub-tasks (stage 2) so
+    # that one big function does not run on a single core
+    stage1 = [(t[0], t[1], t[2], None, 6) if t[0] == 'unit' else t for t in tasks]
     with mp.get_context('fork').Pool(min(jobs, max(1, len(tasks)))) as pool:
-        results = pool.map(_dispatch, tasks, chunksize=1)
-    unit_res = [r for k, r in results if k == 'unit']
-    bnd_res = [r for k, r in results if k == 'bounded']
+        results = pool.map(_dispatch, stage1, chunksize=1)
+        merged = {}
+        order = []
+        rounds = 0
+        while True:
+            more = []
+            for k, r in results:
+                if k != 'unit':
+                    continue
+                idx = r.get('unit_index')
+                if idx not in merged:
+                    merged[idx] = r
+                    order.append(idx)
+                else:
+                    m = merged[idx]
+                    m['obligations'].extend(r['obligations'])
+                    for key in ('paths', 'returns', 'raises'):
+                        m[key] += r[key]
+                    m['secs'] = round(m['secs'] + r['secs'], 3)
+                    m['assumed'] = sorted(set(m['assumed']) | set(r['assumed']))
+                    if r['status'] != 'ok' and m['status'] == 'ok':
+                        m['status'], m['error'] = r['status'], r['error']
+                for w in r.get('pending') or []:
+                    more.append(('unit', pid, idx, [w], 40))
+                r['pending'] = []
+            bnd_new = [(k, r) for k, r in results if k == 'bounded']
+            if rounds == 0:
+                bnd_all = bnd_new
+            if not more:
+                break
+            rounds += 1
+            results = pool.map(_dispatch, more, chunksize=1)
+    unit_res = [merged[i] for i in order]
+    bnd_res = [r for k, r in bnd_all]
     known = load_known()
     kf = [f for f in known.get('findings', []) if f.get('property') == pid]
     lines = []
@@ -123,7 +213,7 @@ def run_check(pid, tier, seed, jobs, select=None):
     ob_rows = []
     backends = {}
     solver_secs = 0.0
-    replay_specs = {u.name: u.replay for u in units}
+    replay_specs = {u.name: (u.replay if u.replay != 'generic' else ('generic', {'pid': pid, 'unit': u.name})) for u in units}
     os.makedirs(os.path.join(OUT, 'replays'), exist_ok=True)
     for r in unit_res:
         if r['status'] == 'error':
